@@ -1,4 +1,4 @@
-import DarkluaModel.C07.Cover
+import DarkluaModel.C07.CoverProof
 /-!
 # C07 — instances of the coverage theorem for the lowering rules
 -/
@@ -101,7 +101,8 @@ end
 
 section fuel
 variable (W : Weights) (hb : ∀ op, W.bin op ≤ 6) (hi : W.interp ≤ 6) (hx : W.ifx = 0) (hc : W.cassign ≤ 6)
-include hb hi hx hc
+  (hct : W.cont ≤ 6)
+include hb hi hx hc hct
 
 mutual
   theorem fTy : ∀ t : Ty, kTy W t + 1 ≤ 8 * t.size
@@ -189,7 +190,7 @@ mutual
   theorem fL : ∀ l : Last, kL W l + 1 ≤ 8 * l.size
     | .ret es => by have := fEs es; simp only [kL, Last.size]; omega
     | .brk => by simp [kL, Last.size]
-    | .cont => by simp [kL, Last.size]
+    | .cont => by simp only [kL, Last.size]; omega
   theorem fOB : ∀ b : Option Block, kOB W b ≤ 8 * Block.sizeOpt b
     | none => by simp [kOB, Block.sizeOpt]
     | some b => by have := fB b; simp only [kOB, Block.sizeOpt]; omega
@@ -200,7 +201,7 @@ end
 
 /-- the fuel `Visitor.runDefault` / `runScoped` provide is enough -/
 theorem fuelFor_enough (b : Block) : kB W b + 1 ≤ Visitor.fuelFor b := by
-  have := fB W hb hi hx hc b
+  have := fB W hb hi hx hc hct b
   unfold Visitor.fuelFor
   omega
 end fuel
@@ -214,8 +215,8 @@ theorem shallowE_const (e : Expr) : shallowE constCensus e = 0 := by
   cases e <;> simp [shallowE, constCensus]
   exact shallowF_const _
 
-theorem cover_make_assignment_local : Cover MakeAssignmentLocal.processor constCensus Z {} where
-  cont_zero := rfl
+theorem cover_make_assignment_local : Cover MakeAssignmentLocal.processor constCensus Z {} (fun _ => true) where
+  cont_ok := fun _ => rfl
   afterBlock_id := fun _ _ => rfl
   scope_id := fun _ _ _ => rfl
   afterStmtNode_id := fun _ _ => rfl
@@ -231,7 +232,7 @@ theorem cover_make_assignment_local : Cover MakeAssignmentLocal.processor constC
   prefPos := fun e _ _ _ hw hc => ⟨hw, hc, Nat.le_refl _, shallowE_const e⟩
   nodePos := fun e _ hw hc hs => ⟨hw, hc, Nat.le_refl _, hs⟩
   stmtPos := by
-    intro st s hw hc
+    intro st s hw hc _
     refine ⟨hw, hc, Nat.le_refl _, ?_⟩
     intro hcs s'
     show GoodS _ _ _ st (MakeAssignmentLocal.stmtNode st s').1
@@ -239,7 +240,7 @@ theorem cover_make_assignment_local : Cover MakeAssignmentLocal.processor constC
       simp_all [GoodS, MakeAssignmentLocal.stmtNode, MakeAssignmentLocal.processor, wfS, zS, kS, shallowS, constCensus,
         isCallStmt]
     all_goals exact shallowF_const _
-  blockPos := fun _ _ hw hc => ⟨hw, hc, Nat.le_refl _⟩
+  blockPos := fun _ _ hw hc => ⟨hw, hc, Nat.le_refl _, fun _ _ => rfl⟩
 
 /-! ### `remove_attribute` -/
 
@@ -256,8 +257,8 @@ theorem attr_node_good (e : Expr) (hw : wfE e = true) :
   · cases e <;> simp [RemoveAttribute.node, shallowE, attributeCensus]
     exact shallowF_attr_clear _
 
-theorem cover_remove_attribute : Cover RemoveAttribute.processor attributeCensus Z {} where
-  cont_zero := rfl
+theorem cover_remove_attribute : Cover RemoveAttribute.processor attributeCensus Z {} (fun _ => true) where
+  cont_ok := fun _ => rfl
   afterBlock_id := fun _ _ => rfl
   scope_id := fun _ _ _ => rfl
   afterStmtNode_id := fun _ _ => rfl
@@ -273,7 +274,7 @@ theorem cover_remove_attribute : Cover RemoveAttribute.processor attributeCensus
   prefPos := fun e _ _ _ hw _ => attr_node_good e hw
   nodePos := fun e _ hw _ _ => attr_node_good e hw
   stmtPos := by
-    intro st s hw hc
+    intro st s hw hc _
     refine ⟨hw, hc, Nat.le_refl _, ?_⟩
     intro hcs s'
     show GoodS _ _ _ st (RemoveAttribute.stmtNode st)
@@ -281,7 +282,7 @@ theorem cover_remove_attribute : Cover RemoveAttribute.processor attributeCensus
       simp_all [GoodS, RemoveAttribute.stmtNode, RemoveAttribute.processor, wfS, zS, kS, shallowS, attributeCensus,
         isCallStmt]
     all_goals (rename_i body; cases body; simp_all [wfF, kF, shallowF, RemoveAttribute.clearAttrs])
-  blockPos := fun _ _ hw hc => ⟨hw, hc, Nat.le_refl _⟩
+  blockPos := fun _ _ hw hc => ⟨hw, hc, Nat.le_refl _, fun _ _ => rfl⟩
 
 
 /-! ### `remove_if_expression` -/
@@ -354,8 +355,8 @@ theorem ifx_good (e : Expr) (hw : wfE e = true) :
     simp [processExpression, shallowE, ifExpressionCensus]
     try exact shallowF_ifx _
 
-theorem cover_remove_if_expression : Cover (RemoveIfExpression.processor truthy) ifExpressionCensus Z Wifx where
-  cont_zero := rfl
+theorem cover_remove_if_expression : Cover (RemoveIfExpression.processor truthy) ifExpressionCensus Z Wifx (fun _ => true) where
+  cont_ok := fun _ => rfl
   afterBlock_id := fun _ _ => rfl
   scope_id := fun _ _ _ => rfl
   afterStmtNode_id := fun _ _ => rfl
@@ -375,14 +376,14 @@ theorem cover_remove_if_expression : Cover (RemoveIfExpression.processor truthy)
     cases e <;> simp_all [isPrefix, shallowE, ifExpressionCensus]
   nodePos := fun e _ hw hc hs => ⟨hw, hc, Nat.le_refl _, hs⟩
   stmtPos := by
-    intro st s hw hc
+    intro st s hw hc _
     refine ⟨hw, hc, Nat.le_refl _, ?_⟩
     intro hcs s'
     show GoodS _ _ _ st st
     refine ⟨hw, hc, Nat.le_refl _, ?_, hcs⟩
     cases st <;> simp [shallowS, ifExpressionCensus]
     all_goals exact shallowF_ifx _
-  blockPos := fun _ _ hw hc => ⟨hw, hc, Nat.le_refl _⟩
+  blockPos := fun _ _ hw hc => ⟨hw, hc, Nat.le_refl _, fun _ _ => rfl⟩
 
 end ifx
 
